@@ -139,13 +139,15 @@ def _has_quantifier(e):
 def _mk_solver(rlimit):
     s = z3.Solver()
     s.set("rlimit", rlimit)
-    s.set("timeout", 60_000)
+    s.set("timeout", 25_000)
     return s
 
 
 def solve_obligation(ob: Obligation, rlimit, model_vars):
     t0 = time.time()
     goal = ob.goal
+    if os.environ.get("VERIF_DEBUG"):
+        print(f"   [solving] {ob.name} ...", flush=True)
     if z3.is_true(goal):
         ob.verdict, ob.solver = "discharged", "trivial"
         return
